@@ -5,6 +5,7 @@
   The orchestration layer (both child statuses are checked before any ref, HEAD, index or object
   is touched) is proved over the extracted step table in Frrs/Props/C10Order.lean.
 -/
+import Frrs.Proofs.Monotone
 import Frrs.Filter
 import Frrs.Proofs.Bytes
 import Frrs.Extracted
@@ -128,5 +129,14 @@ theorem run_order : CalledBefore Extracted.runEvents .validateOptions [.prefligh
 
 /-- the data-block limit of the model is the one in limits.rs (extracted on every run) -/
 theorem data_block_limit_is_the_codes : Pipe.constOf Extracted.consts .maxDataBlockSize = some maxDataBlock := by decide +kernel
+
+/-- **the filtered stream is append-only**: what has been written (to the importer and to fast-export.filtered) at any
+    point of a run is a prefix of what the run reports — on success and on failure alike; nothing already sent is taken
+    back or rewritten -/
+theorem output_never_retracted (o : FOpts) (f : Nat) (s : FState) (inp : Bytes) :
+    s.out <+: (loop o f s inp).out := (loop_resExt o f s inp).out
+
+/-- a run that fails reports exactly the bytes it had written when it failed -/
+theorem failed_reports_what_was_written (s : FState) : (failed s).out = s.out := rfl
 
 end Frrs.C10
